@@ -30,9 +30,10 @@ func init() {
 	hx.Register(&hx.Prop{
 		ID: "C03",
 		Rule: "type-directed by reflection over the library's own structs. Exhaustive: every object kind of openapi3 and openapi2 (struct kinds, reference wrappers, map-like containers) × every single field × every value variant of the field's Go type " +
-			"(non-default, redundant default, null, empty, $ref with and without siblings) × 3 extension shapes (none, x- extension, unknown key) × writers/readers (encoding/json, oasdiff/yaml, yaml3 via MarshalYAML); every pair of fields of every kind; " +
-			"then a seeded random stream of nested documents (depth ≤ 4) of every kind, whole v3 documents through Loader.LoadFromData and whole v2 documents. " +
-			"A case is non-trivial when the model reports a branch (a kind visited, a field kept, a default dropped, a required key added, an extension or unknown key kept, a reference taken, siblings dropped, …).",
+			"(non-default, redundant default, null, empty, $ref with and without siblings, $ref that is empty / null / not a string, type lists that are empty, hold null or are ill-typed) × 3 extension shapes (none, x- extension, unknown key) × writers/readers (encoding/json, oasdiff/yaml, yaml3 via MarshalYAML); every pair of fields of every kind; " +
+			"the Schema post-processing grid format × example (flat and nested); " +
+			"then a seeded random stream of nested documents (depth ≤ 4; 400 per kind quick, 8000 thorough) of every kind, whole v3 documents through Loader.LoadFromData (800 / 20000) and whole v2 documents. " +
+			"A case is non-trivial when the model reports a branch (a kind visited, a field kept, a default dropped, a required key added, an extension or unknown key kept, a reference taken, siblings dropped, …); the branch spec.normal counts the cases in deep normal form, excl.notClean those outside the scope of the deep theorems.",
 		Exhaustive: true,
 		Gen:        genC03,
 		Run:        runC03,
@@ -257,6 +258,9 @@ func cmpC03x(c hx.Case, impl any, reply map[string]any) hx.Verdict {
 	case "harness-error":
 		return hx.Verdict{IM: false, IS: true, Detail: "harness: " + jstr(im, "err")}
 	case "unparsed":
+		if mf, _ := model["first"].(map[string]any); mf != nil && jbool(mf, "unparsed") {
+			return hx.Verdict{IM: true, IS: true} // the model says so too (typing of `Types`)
+		}
 		// outside the quantifier; a document the specification side calls normal is well-typed and must parse
 		// (the loader applies document-level checks of its own while resolving references: not a parsing matter)
 		if normal && !jbool(c, "loader") {
@@ -389,7 +393,7 @@ var (
 	tTypes     = reflect.TypeOf(openapi3.Types{})
 	tAddProps  = reflect.TypeOf(openapi3.AdditionalProperties{})
 	c03_tOrigin    = reflect.TypeOf(openapi3.Origin{})
-	c03Strings = []string{"s", "a b", "x-y", "true", "12", "2020-01-02", "null", "é✓", "a: b", "#/x", "~", "0x1f", " lead", "multi\nline"}
+	c03Strings = []string{"s", "a b", "x-y", "true", "12", "2020-01-02", "null", "é✓", "a: b", "#/x", "~", "0x1f", " lead", "multi\nline", "date", "2020-01-02T00:00:00Z", "T00:00:00Z", "[]", "{}", "1e3", "-", "yes"}
 )
 
 func c03IsRefWrapper(t reflect.Type) bool {
@@ -754,7 +758,8 @@ func c03Variants(g *c03Gen, t reflect.Type) []any {
 	case t == tAny:
 		return []any{"e", 0, "", false, []any{}, map[string]any{}, map[string]any{"k": []any{1, "a"}}, nil}
 	case t == tTypes:
-		return []any{"string", []any{"string", "null"}, []any{"integer"}, []any{}}
+		// the last five are refused (or repaired: null element ↦ "") by Types.UnmarshalJSON
+		return []any{"string", []any{"string", "null"}, []any{"integer"}, []any{}, []any{nil}, []any{"string", nil}, 5, []any{5}, true, map[string]any{}}
 	case t == tAddProps:
 		return []any{true, false, map[string]any{"type": "string"}, map[string]any{"$ref": "#/components/schemas/A"}, map[string]any{}, nil}
 	}
@@ -795,7 +800,8 @@ func c03Variants(g *c03Gen, t reflect.Type) []any {
 		if c03IsRefWrapper(t) {
 			vf, _ := t.FieldByName("Value")
 			ref := c03Collection(t) + "A"
-			out := []any{map[string]any{"$ref": ref}, map[string]any{"$ref": ref, "x-sib": 1, "description": "sibling"}, map[string]any{"$ref": ""}}
+			out := []any{map[string]any{"$ref": ref}, map[string]any{"$ref": ref, "x-sib": 1, "description": "sibling"}, map[string]any{"$ref": ""},
+				map[string]any{"$ref": 5}, map[string]any{"$ref": nil, "description": "d"}, map[string]any{"$ref": "", "description": "d", "x-e": 1}}
 			return append(out, c03Variants(g, vf.Type.Elem())...)
 		}
 		g1 := &c03Gen{r: g.r, sloppy: 0}
@@ -923,10 +929,29 @@ func genC03(ctx *hx.Ctx, emit func(hx.Case)) {
 			c03Emit(emit, k, format, d, false)
 		}
 	}
+	// 1b. the post-processing of Schema.UnmarshalJSON: every format × example shape, flat and nested
+	sk := c03ByName["kind:openapi3.Schema"]
+	for _, f := range []any{"date", "date-time", "datetime", "Date", "time", "", nil} {
+		for _, e := range []any{"2020-01-02T00:00:00Z", "2020-01-02T00:00:00ZT00:00:00Z", "T00:00:00Z", "2020-01-02T00:00:00z", "2020-01-02", "", 5, nil, []any{"2020-01-02T00:00:00Z"}} {
+			for i, format := range c03AllFormats {
+				d := map[string]any{"type": "string"}
+				if f != nil {
+					d["format"] = f
+				}
+				if e != nil {
+					d["example"] = e
+				}
+				c03Emit(emit, sk, format, d, false)
+				if i == 0 || ctx.Thorough() {
+					c03Emit(emit, sk, format, map[string]any{"items": d, "default": e}, false)
+				}
+			}
+		}
+	}
 	// 2. random nested documents of every kind
-	n := 60
+	n := 400
 	if ctx.Thorough() {
-		n = 600
+		n = 8000
 	}
 	for i := 0; i < n; i++ {
 		for _, k := range c03Kinds {
@@ -939,9 +964,9 @@ func genC03(ctx *hx.Ctx, emit func(hx.Case)) {
 		}
 	}
 	// 3. whole v3 documents through the loader (references resolvable)
-	m := 150
+	m := 800
 	if ctx.Thorough() {
-		m = 2500
+		m = 20000
 	}
 	tk := c03ByName["kind:openapi3.T"]
 	for i := 0; i < m; i++ {
